@@ -437,6 +437,20 @@ pub fn type_pair_family(k: usize, tier: Tier) -> Vec<String> {
             }
         }
     }
+    // Types that are conditionals stuck on a boolean parameter (and on a comparison of an integer
+    // parameter): conversion has to compare both branches of two stuck conditionals.
+    let stuck_types = [
+        "if c then int else bool", "if c then int else int -> int", "if c then bool else int", "if c then int else int", "int", "bool",
+        "if n < 1 then int else bool", "if n < 1 then int else int -> int", "if c then (if c then int else bool) else bool",
+    ];
+    for t1 in stuck_types {
+        for t2 in stuck_types {
+            let head = "(c : bool) => (n : int) => ";
+            out.push(format!("{head}(ff : ({t1}) -> int) => (xx : ({t2})) => ff xx"));
+            out.push(format!("{head}(xx : ({t1})) => (yy : ({t2})) => if true then xx else yy"));
+            out.push(format!("{head}(xx : ({t1})) => (yy : ({t2}) = xx; 0)"));
+        }
+    }
     // Two terms of one kind K meeting under an opaque type constructor: accepted iff E1 and E2 are
     // convertible. `mk 3 : p E1` is obtained by instantiating a dependent codomain, so E1 has passed
     // through substitution before the comparison. Kinds: int, bool, int -> int, the polymorphic identity
@@ -472,6 +486,56 @@ pub fn type_pair_family(k: usize, tier: Tier) -> Vec<String> {
                 for b2 in ints {
                     out.push(format!("(pp : int -> int -> type) => (mk : (nn : int) -> pp {a1} {b1}) => (ww : pp {a2} {b2} = mk 3; 0)"));
                 }
+            }
+        }
+    }
+    out
+}
+
+// The late-hole family: a parameter without annotation (`x =>`, a hole written at one depth) whose type
+// is fixed only further in, under more binders and definition groups, by the way `x` is used: every
+// sequence of up to two binders before it (a type parameter, an integer parameter), every sequence of
+// up to three items after it (a function parameter over the type parameter, a boolean parameter, the
+// groups `t = int` / `t = bool` around the rest) and six bodies. The solution recorded for the hole is
+// then looked at from several depths and across definitions. Ill-scoped members are rejected by the
+// parser and do not count.
+pub fn late_hole_family() -> Vec<String> {
+    let pre = ["(a : type) => ", "(n : int) => "];
+    let mid = ["(f : a -> int) => ", "(c : bool) => ", "(t = int; @)", "(t = bool; @)", "(g : int -> a) => "];
+    let bodies = ["f x", "x + 1", "if c then x else f x", "if c then f x else x", "if c then x else g n", "(y : t = x; y)"];
+    let mut pres: Vec<String> = vec![String::new()];
+    for p in pre {
+        pres.push(p.to_owned());
+        for q in pre {
+            if p != q {
+                pres.push(format!("{p}{q}"));
+            }
+        }
+    }
+    let mut mids: Vec<Vec<&str>> = vec![vec![]];
+    for a in mid {
+        mids.push(vec![a]);
+        for b in mid {
+            if a != b {
+                mids.push(vec![a, b]);
+                for c in mid {
+                    if c != a && c != b {
+                        mids.push(vec![a, b, c]);
+                    }
+                }
+            }
+        }
+    }
+    let mut out = vec![];
+    for p in &pres {
+        for m in &mids {
+            for body in bodies {
+                // nest the items: a binder prefixes the rest, a group wraps the rest
+                let mut rest = body.to_owned();
+                for item in m.iter().rev() {
+                    rest = if item.contains('@') { item.replace('@', &rest) } else { format!("{item}{rest}") };
+                }
+                out.push(format!("{p}x => {rest}"));
             }
         }
     }
